@@ -52,8 +52,21 @@ type Event struct {
 	Fresh bool   `json:"fresh"`
 	Op    string `json:"op,omitempty"` // M: which update
 	D1    string `json:"d1,omitempty"` // M: digest of the cell after the update
+	// M, P: ownership of backing arrays (Purity!Place): the owner of mem, whether it is a returned update (nobody is meant
+	// to write it again), what placed it (P: publish | track), and the stretches of addresses that back it up to capacity
+	// as order-preserving ranks within the segment (computed from raw when the log is filed)
+	// (behind a pointer: only M and P lines have them, and a thorough run keeps millions of lines)
+	*own
 	// not part of the trace
 	call *callInfo
+}
+
+type own struct {
+	Who    string
+	Frozen bool
+	By     string
+	Regs   [][2]int
+	raw    []region // the real addresses
 }
 
 // callInfo says where a call came from (for reports and re-execution).
@@ -77,6 +90,7 @@ type caseInfo struct {
 	shape  string
 	expect string // verdict the Ledger specification gives the block
 	v1, v2 int    // transactions
+	hist   bool   // not one block: the history experiment over the whole behaviour (holders.go)
 }
 
 type recorder struct {
@@ -769,7 +783,9 @@ func fileByCase(events []Event) (lines []Event) {
 	idCase := map[int]string{}
 	for _, e := range events {
 		if e.Ev == "B" || e.Ev == "M" {
-			idCase[e.ID] = e.Case
+			if e.Ev == "B" {
+				idCase[e.ID] = e.Case
+			}
 			if !slices.Contains(memCases[e.Mem], e.Case) {
 				memCases[e.Mem] = append(memCases[e.Mem], e.Case)
 			}
@@ -785,7 +801,7 @@ func fileByCase(events []Event) (lines []Event) {
 	}
 	for _, e := range events {
 		switch e.Ev {
-		case "B", "M":
+		case "B", "M", "P", "L":
 			put(e.Case, e)
 		case "E":
 			put(idCase[e.ID], e)
@@ -801,10 +817,44 @@ func fileByCase(events []Event) (lines []Event) {
 	}
 	sort.Strings(order)
 	for _, c := range order {
+		rankRegions(by[c])
 		lines = append(lines, Event{Ev: "seg", Case: c})
 		lines = append(lines, by[c]...)
 	}
 	return lines
+}
+
+// rankRegions replaces the real addresses of the stretches in one segment by their ranks among all addresses of the
+// segment (order preserving, so that overlap is what it is in memory; TLC's integers have 32 bits).
+func rankRegions(evs []Event) {
+	var pts []uintptr
+	for _, e := range evs {
+		if e.own == nil {
+			continue
+		}
+		for _, r := range e.raw {
+			pts = append(pts, r.lo, r.hi)
+		}
+	}
+	if len(pts) == 0 {
+		return
+	}
+	slices.Sort(pts)
+	pts = slices.Compact(pts)
+	rank := make(map[uintptr]int, len(pts))
+	for i, p := range pts {
+		rank[p] = i + 1
+	}
+	for i := range evs {
+		if evs[i].own == nil || len(evs[i].raw) == 0 {
+			continue
+		}
+		rs := make([][2]int, 0, len(evs[i].raw))
+		for _, r := range evs[i].raw {
+			rs = append(rs, [2]int{rank[r.lo], rank[r.hi]})
+		}
+		evs[i].Regs = rs
+	}
 }
 
 type reject struct {
@@ -818,6 +868,7 @@ func goCheck(lines []Event) (out []reject) {
 	var memo map[string]string
 	var opens map[int]open
 	var seen map[string]string
+	var reg map[string]placed
 	cs := ""
 	segs := map[string]bool{}
 	for i, t := range lines {
@@ -830,6 +881,7 @@ func goCheck(lines []Event) (out []reject) {
 			}
 			segs[t.Case] = true
 			memo, opens, seen, cs = map[string]string{}, map[int]open{}, map[string]string{}, t.Case
+			reg = map[string]placed{}
 			continue
 		case "B":
 			if t.Case != cs {
@@ -891,10 +943,27 @@ func goCheck(lines []Event) (out []reject) {
 			if r, ok := memo[t.Fn]; ok && r != t.Res {
 				rej("V:update-result-differs " + t.Op)
 			}
+			if !placeOK(reg, t) {
+				rej("V:refresh-shares-array " + t.Op)
+			}
 			seen[t.Mem] = t.D1
 			if _, ok := memo[t.Fn]; !ok {
 				memo[t.Fn] = t.Res
 			}
+			reg[t.Mem] = placed{t.Who, t.Frozen, t.Regs}
+		case "P":
+			if t.Case != cs {
+				rej("H:event filed under another case")
+			}
+			if !placeOK(reg, t) {
+				rej("V:array-shared " + t.By)
+			}
+			reg[t.Mem] = placed{t.Who, t.Frozen, t.Regs}
+		case "L":
+			if d, ok := seen[t.Mem]; ok && d != t.D {
+				rej("V:result-changed-after-return look")
+			}
+			seen[t.Mem] = t.D
 		default:
 			rej("H:unknown event")
 		}
@@ -906,6 +975,60 @@ func goCheck(lines []Event) (out []reject) {
 		out = append(out, reject{0, "H:log does not start with a segment"})
 	}
 	return out
+}
+
+// placed is Purity's st.reg[m].
+type placed struct {
+	who    string
+	frozen bool
+	regs   [][2]int
+}
+
+func stretchOverlap(r, s [2]int) bool {
+	return r[0] < r[1] && s[0] < s[1] && r[0] < s[1] && s[0] < r[1]
+}
+
+// sharers is Purity!Sharers: the mems whose memory overlaps the memory of the cell placed by t.
+func sharers(reg map[string]placed, t Event) (out []string) {
+	for m, o := range reg {
+		if m == t.Mem || (t.Frozen && o.frozen && o.who == t.Who) {
+			continue
+		}
+		hit := false
+		for _, r := range t.Regs {
+			for _, s := range o.regs {
+				if stretchOverlap(r, s) {
+					hit = true
+				}
+			}
+		}
+		if hit {
+			out = append(out, m)
+		}
+	}
+	sort.Strings(out)
+	return out
+}
+
+// placeOK is Purity!PlaceOK.
+func placeOK(reg map[string]placed, t Event) bool {
+	if !t.Frozen {
+		for i, r := range t.Regs {
+			for j, s := range t.Regs {
+				if i != j && r != s && stretchOverlap(r, s) {
+					return false
+				}
+			}
+		}
+	}
+	return len(sharers(reg, t)) == 0
+}
+
+func traceRegs(e Event) [][2]int {
+	if e.Regs == nil {
+		return [][2]int{}
+	}
+	return e.Regs
 }
 
 func traceBytes(lines []Event) []byte {
@@ -922,7 +1045,12 @@ func traceBytes(lines []Event) []byte {
 		case "A":
 			m = map[string]any{"ev": "A", "mem": e.Mem, "d": e.D}
 		case "M":
-			m = map[string]any{"ev": "M", "id": e.ID, "fn": e.Fn, "op": e.Op, "case": e.Case, "mem": e.Mem, "d": e.D, "d1": e.D1, "res": e.Res}
+			m = map[string]any{"ev": "M", "id": e.ID, "fn": e.Fn, "op": e.Op, "case": e.Case, "mem": e.Mem, "d": e.D, "d1": e.D1, "res": e.Res,
+				"who": e.Who, "frozen": e.Frozen, "regs": traceRegs(e)}
+		case "P":
+			m = map[string]any{"ev": "P", "case": e.Case, "mem": e.Mem, "who": e.Who, "frozen": e.Frozen, "by": e.By, "regs": traceRegs(e)}
+		case "L":
+			m = map[string]any{"ev": "L", "mem": e.Mem, "d": e.D}
 		default:
 			m = map[string]any{"ev": e.Ev}
 		}
